@@ -171,6 +171,7 @@ func runC04(c *Check) {
 	ruleCacheFiles(c, p, "C04-R5")
 	rulePersistedStateLoadable(c, p, "C04-R6")
 	ruleBlockSaveAtomic(c, p, "C04-R14")
+	ruleFirstStartRepeatable(c, p, "C04-R15")
 	c.Doc("C04-R7", "error discipline: in the block package and the store, no error returned by the store, the datastore, the executor, the sequencer or the DA layer is discarded (a discarded error of a durable write lets the step continue as if it had been written).")
 	ruleNoDroppedLayerErrors(c, p, "C04-R7", []string{rootPath + "/block", storePkg})
 	ruleVerifyHookAdjacency(c, p, "C04-R8")
@@ -268,6 +269,7 @@ func runC05(c *Check) {
 	rulePersistedStateLoadable(c, p, "C05-R5")
 	ruleMarksAfterItems(c, p, "C05-R6")
 	ruleSeenCensus(c, p, "C05-R9", steps)
+	ruleItemRemovalCensus(c, p, "C05-R12", steps)
 	ruleFinalisationRepeatable(c, "C05-R10")
 	ruleBlockSaveAtomic(c, p, "C05-R11")
 	ruleSinglePurposeWriters(c, p, "C05-R7")
@@ -1179,4 +1181,62 @@ func ruleConstructorToleratesAbsentCursor(c *Check, p *Prog, rule string) {
 			"the constructor returns an error because the batch cursor could not be read: the key does not exist until the second block takes a batch, so a sequencer that stopped after its first block can never be started again (only producing a block would create the key)",
 			g, g.PathAvoiding(failed, errExit, nodeSet(otherFail)))
 	}
+}
+
+// ruleFirstStartRepeatable (C04-R15): a chain's first start is not atomic — NewManager records
+// the height below the initial one, the genesis placeholder block is saved, and the first state
+// is persisted only when the first block is finished. Until then every start finds "no state"
+// again and has to be able to do the same again: on the not-found branch of the state loader an
+// error is returned only when something underneath failed, never on a condition of the loader's
+// own about what the store already holds (a recorded height, a saved block).
+func ruleFirstStartRepeatable(c *Check, p *Prog, rule string) {
+	c.Doc(rule, "GA: in the initial-state loader, from the edge that found no stored state, every error return is behind the failure of a call underneath (InitChain, signer, save): the loader does not refuse to initialise on account of what else the store holds — a crash before the first state write would otherwise make every later start fail.")
+	fn := p.Func(blockF("getInitialState"))
+	if fn == nil {
+		for _, f := range funcsCalling(p, rootPath+"/block", func(n string) bool { return strings.HasSuffix(n, "execution.Executor).InitChain") }) {
+			fn = f
+		}
+	}
+	if fn == nil {
+		c.Unk(rule, "initial-state loader", "", "", "anchor lost: the function that calls InitChain")
+		return
+	}
+	g := BuildECFG(p, fn, ExpandOpts{MaxDepth: 0})
+	c.NoteGraph(g)
+	notFound := g.Select(EdgeWhere(func(t *Term, pol bool, _ *Node) bool {
+		t, pol = normFact(t, pol)
+		return pol && t.IsCall("errors.Is") && strings.Contains(t.String(), "Store).GetState") && strings.Contains(t.String(), "ErrNotFound")
+	}))
+	if len(notFound) == 0 {
+		c.Unk(rule, fnShort(fn)+" ⟂ first start repeatable", fnName(fn), "", "anchor lost: the not-found edge of the state read")
+		return
+	}
+	failed := g.Select(EdgeWhere(func(t *Term, pol bool, nd *Node) bool {
+		t, pol = normFact(t, pol)
+		if t.Op != "bin" || len(t.Args) != 2 || t.Args[1].Name != "nil" || (t.Name != "!=" && t.Name != "==") {
+			return false
+		}
+		notNil := (t.Name == "!=") == pol
+		a := t.Args[0]
+		if a.Op == "extract" && len(a.Args) > 0 {
+			a = a.Args[0]
+		}
+		return notNil && (a.Op == "call" || a.Op == "invoke" || a.Op == "dyncall")
+	}))
+	var errExits []*Node
+	for _, x := range g.Exits {
+		if g.ExitClass(x) != rcA {
+			continue
+		}
+		ret := x.In.(*ssa.Return)
+		rt := TermOf(spilledResult(ret, len(ret.Results)-1), x.Ctx)
+		if (rt.Op == "call" || rt.Op == "invoke" || rt.Op == "extract") && !rt.IsCall("fmt.Errorf") && !rt.IsCall("errors.New") && !rt.IsCall("errors.Join") {
+			continue
+		}
+		errExits = append(errExits, x)
+	}
+	c.Decide(rule, fnShort(fn)+" ⟂ first start repeatable", fnName(fn), p.InstrPos(notFound[0].In),
+		"with no stored state, initialisation fails only when a call underneath fails",
+		"with no state in the store the loader can return an error although nothing underneath failed — it refuses to initialise on a condition of its own (what the store already records). Between the first start's height write and the first block's state write the store legitimately holds a height (and a genesis block) but no state: a stop or crash in that window makes every later start fail", g,
+		g.PathAvoiding(notFound, nodeSet(errExits), nodeSet(failed)))
 }
